@@ -3,6 +3,7 @@ package rules
 import (
 	"fmt"
 	"go/token"
+	"reflect"
 	"regexp"
 	"sort"
 	"strings"
@@ -15,7 +16,7 @@ import (
 func init() {
 	register("C04", PropCheck{
 		Title:      "Navigation stack and page index follow the documented move table",
-		Explain:    "Each navigation step applies exactly the tabulated update, decided structurally: (R1) the target dispatcher's string switch maps '_'->{Up,Pop}, '>'->{Next}, '<'->{Previous}, '^'->{Rewind}, '.'->{Same}, any other name->{Down(name),Push}, and its token set equals the special-node table of doc/texinfo/navigation.texi; (R2) the effect signatures of the State movers on the success path (Down: ExecPath=append(ExecPath,param), SizeIdx=0; Up: ExecPath one shorter, SizeIdx=0; Next: SizeIdx+1 only; Previous: SizeIdx-1 only, refused with IndexError at 0; Same: neither); (R3) ExecPath and SizeIdx are stored to only inside package state and every such store has one of the tabulated value classes (constant 0, self +/- 1, append of a parameter, re-slice to a shorter prefix); (R4) inside package vm the movers are called only from the dispatcher and Rewind; (R5) every return of Rewind after an Up passes the Top()==true edge or an error edge, and Rewind pairs Up with Pop; (R6) the Up of the '_' case is only reached behind the Top()==false edge. With R1-R6 the position after any history equals the table's by induction on the history.",
+		Explain:    "Each navigation step applies exactly the tabulated update, decided structurally: (R1) the target dispatcher's string switch maps '_'->{Up,Pop}, '>'->{Next}, '<'->{Previous}, '^'->{Rewind}, '.'->{Same}, any other name->{Down(name),Push}, and its token set equals the special-node table of doc/texinfo/navigation.texi; (R2) the effect signatures of the State movers on the success path (Down: ExecPath=append(ExecPath,param), SizeIdx=0; Up: ExecPath one shorter, SizeIdx=0; Next: SizeIdx+1 only; Previous: SizeIdx-1 only, refused with IndexError at 0; Same: neither); (R3) ExecPath and SizeIdx are stored to only inside package state and every such store has one of the tabulated value classes (constant 0, self +/- 1, append of a parameter, re-slice to a shorter prefix); (R4) inside package vm the movers are called only from the dispatcher and Rewind; (R5) every return of Rewind after an Up passes the Top()==true edge or an error edge, and Rewind pairs Up with Pop; (R6) the Up of the '_' case is only reached behind the Top()==false edge. With R1-R6 the position after any history equals the table's by induction on the history; (R7) the depth limit applies to descents only: in the dispatcher Up, Next, Previous, Same and Rewind are reachable without passing any comparison with state.MaxLevel (added after seeded change C04-E, which hoisted the guard to the top of the function); (R8) ExecPath and SizeIdx are written to the snapshot unconditionally (no omitempty; shared with C07 R1, added after C04-F) R4 also covers Rewind itself: only the dispatcher family calls it (added after seeded change C04-H, a matching CROAK that rewinds).",
 		NotDecided: "that Top()'s notion of 'entry node' matches the application's configuration; failing external calls between moves; equality is argued by induction, not enumerated.",
 		Run:        runC04,
 	})
@@ -109,6 +110,8 @@ func runC04(w *core.World, r *core.Report) {
 	r.Rule("R4", "in package vm the State movers are called only by the dispatcher and Rewind")
 	r.Rule("R5", "Rewind: after an Up every return passes Top()==true or an error edge")
 	r.Rule("R6", "the Up of the '_' case is behind Top()==false")
+	r.Rule("R7", "the depth limit applies to descents only: Up, Next, Previous, Rewind and Same are reachable in the dispatcher without passing a comparison with state.MaxLevel")
+	r.Rule("R8", "the position (ExecPath, SizeIdx) is always written to the snapshot: no omitempty on these fields")
 
 	disp := navDispatchers(w)
 	if len(disp) != 1 {
@@ -450,6 +453,15 @@ func runC04(w *core.World, r *core.Report) {
 		}
 	}
 	r.Floor("R4", "mover call sites in vm", n4, 4)
+	// Rewind itself is a move ('^'): only the dispatcher family calls it
+	for _, fn := range w.LibFuncs {
+		if fn == rew {
+			continue
+		}
+		for _, c := range callsToSet(fn, map[*ssa.Function]bool{rew: true}) {
+			r.Check(family[fn], "R4", fmt.Sprintf("%s: calls Rewind", label(roleLabels(w, r), fn)), c.Pos(), "dispatcher", "the stack is unwound to the entry node outside the target dispatcher: an instruction that is not a move (the table has no entry for it) changes the position")
+		}
+	}
 	// the three moving handlers go through the dispatcher
 	hs, _, _ := opcodeHandlers(w, r)
 	opn := opcodeNames(w)
@@ -512,6 +524,48 @@ func runC04(w *core.World, r *core.Report) {
 					"the rewind can stop although the stack is not at the entry node (exit not controlled by Top()): "+w.PathString(path))
 			}
 		}
+	}
+
+	// ---- R7 -----------------------------------------------------------------------------------
+	for d := range navDispatchers(w) {
+		cut := core.NewCut()
+		for _, in := range allInstrs(d) {
+			bo, ok := in.(*ssa.BinOp)
+			if !ok {
+				continue
+			}
+			isMax := false
+			for _, v := range []ssa.Value{bo.X, bo.Y} {
+				for _, src := range core.Sources(v) {
+					if g := core.GlobalOf(src); g != nil && g.Name() == "MaxLevel" {
+						isMax = true
+					}
+				}
+			}
+			if isMax {
+				cut.AddEdge(core.EdgesWhere(bo, true)...)
+				cut.AddEdge(core.EdgesWhere(bo, false)...)
+			}
+		}
+		for _, mv := range []struct{ name, callee string }{{"Up", "state.(*State).Up"}, {"Next", "state.(*State).Next"}, {"Previous", "state.(*State).Previous"}, {"Same", "state.(*State).Same"}, {"Rewind", "vm.Rewind"}} {
+			calls := core.CallsTo(d, mv.callee)
+			if len(calls) == 0 {
+				continue // reached through a helper of the family: R1 decides the case table
+			}
+			okAny := false
+			for _, c := range calls {
+				if hit, _ := core.Reach(core.Entry(d), core.IsInstr(c.(ssa.Instruction)), cut); hit != nil {
+					okAny = true
+				}
+			}
+			r.Check(okAny, "R7", "navigation dispatcher: "+mv.name+" is not subject to the depth limit", calls[0].Pos(), "reachable without a MaxLevel comparison",
+				"every path to the "+mv.name+" move passes a comparison with state.MaxLevel: at the deepest level the session cannot go back, sideways or home any more (the move table has no depth condition for it)")
+		}
+	}
+	// ---- R8 -----------------------------------------------------------------------------------
+	for _, fld := range []string{"ExecPath", "SizeIdx"} {
+		tag := reflect.StructTag(structTag(w, "state", "State", fld)).Get("cbor")
+		r.Check(!omitEmptyTag(tag), "R8", "state.State."+fld+": always in the snapshot", token.NoPos, "no omitempty", "a zero "+fld+" is left out of the snapshot: a Load into a State object that was used before keeps the old position")
 	}
 }
 
